@@ -755,7 +755,17 @@ class SymFloat:
         if s.k == FIN and o.k == FIN:
             a, b = s.r, o.r
             if LIN_DIV[0] and (z3.is_div(a) or z3.is_div(b)):
-                a, b, op = _clear_div(a, b, op)
+                if ENGINE is not None and getattr(ENGINE, "judging", False):
+                    ej = _clear_div_expr(a, b, op)
+                    if ej is not None:
+                        ej = z3.simplify(ej)
+                        if z3.is_true(ej):
+                            return True
+                        if z3.is_false(ej):
+                            return False
+                        return SymBool(ej)
+                else:
+                    a, b, op = _clear_div(a, b, op)
             if op == "lt":
                 e = a < b
             elif op == "le":
@@ -818,6 +828,21 @@ LIN_DIV = [True]   # compare quotients by cross-multiplication (keeps queries li
 OPAQUE_NORM = [False]  # norm of >= 2 symbolic entries: fresh real t with max|c_i| <= t <= sum|c_i| (over-approximation)
 
 _FLIP = {"lt": "gt", "le": "ge", "gt": "lt", "ge": "le", "eq": "eq", "ne": "ne"}
+
+
+def _rel(a, b, op):
+    return {"lt": a < b, "le": a <= b, "gt": a > b, "ge": a >= b, "eq": a == b, "ne": a != b}[op]
+
+
+def _clear_div_expr(a, b, op):
+    """non-forking variant for oracles: (d > 0 and n op b d) or (d < 0 and n op' b d)"""
+    if z3.is_div(a) and not z3.is_rational_value(a.arg(1)):
+        n, d = a.arg(0), a.arg(1)
+        return z3.Or(z3.And(d > 0, _rel(n, b * d, op)), z3.And(d < 0, _rel(n, b * d, _FLIP[op])))
+    if z3.is_div(b) and not z3.is_rational_value(b.arg(1)):
+        n, d = b.arg(0), b.arg(1)
+        return z3.Or(z3.And(d > 0, _rel(a * d, n, op)), z3.And(d < 0, _rel(a * d, n, _FLIP[op])))
+    return None
 
 
 def _clear_div(a, b, op):
